@@ -306,3 +306,14 @@ pub fn view1_geom<T>(base: *const T, ptr: *const T, len: usize, stride: isize) -
     let off = if len == 0 { 0 } else { (ptr as isize - base as isize) / (std::mem::size_of::<T>().max(1) as isize) };
     json!({"ptr": off, "len": len, "stride": stride})
 }
+
+impl Lay {
+    /// An *owned* array with this layout (sliced and permuted in place, so offset and strides are kept).
+    pub fn owned<T: Clone>(&self, data: &[T], pad: impl Fn(usize) -> T) -> ArrayD<T> {
+        let mut p = self.build(data, pad);
+        for (ax, &(a, b, c)) in self.sl.iter().enumerate() {
+            p.slice_axis_inplace(Axis(ax), Slice::new(a, Some(b), c));
+        }
+        p.permuted_axes(IxDyn(&self.perm))
+    }
+}
